@@ -26,6 +26,8 @@ def skipws_flag(g, env, seen=()):
         return skipws_flag(g[1], env, seen)
     if k in ("mf", "or"):
         return all(skipws_flag(x, env, seen) for x in g[1:])
+    if k == "each":
+        return True
     if k in ("opt", "star", "plus", "group", "suppress", "fb", "dlist"):
         return skipws_flag(g[1], env, seen)
     if k == "combine":
@@ -39,7 +41,7 @@ def skipws_flag(g, env, seen=()):
 
 def callpre_flag(g, env, seen=()):
     k = g[0]
-    if k in ("mf", "or"):
+    if k in ("mf", "or", "each"):
         return False
     if k in ("opt", "star", "plus", "group", "suppress", "fb", "not"):
         return callpre_flag(g[1], env, seen)
@@ -139,6 +141,41 @@ def peg(g, env, s, loc, nows=False, depth=0):
             if r is not None and (best is None or r[0] > best[0]):
                 best = r
         return best
+    if k == "each":
+        # '&': operands in any order; a plain operand exactly once, Opt(x) at most once, ZeroOrMore(x) any number of times,
+        # OneOrMore(x) at least once.  At each point the first operand (required ones first, then optional ones, then
+        # repeatable ones; each in the order written) that matches here is taken; stop when none matches.
+        ops = list(g[1:])
+        if len(set(ops)) != len(ops):
+            raise Unsupported("duplicate operands")
+        req = [e for e in ops if e[0] not in ("opt", "star", "plus")] + [e[1] for e in ops if e[0] == "plus"]
+        opt = [e[1] for e in ops if e[0] == "opt"]
+        multi = [e[1] for e in ops if e[0] in ("star", "plus")]
+        l, toks, rounds = l0, [], 0
+        while True:
+            rounds += 1
+            if rounds > len(s) + len(ops) + 3:
+                raise Spin()
+            cands = req + opt + multi
+            nfail = 0
+            for e in cands:
+                r = P(e, l)
+                if r is None:
+                    nfail += 1
+                    continue
+                l, toks = r[0], toks + r[1]
+                if e in req:
+                    req.remove(e)
+                elif e in opt:
+                    opt.remove(e)
+            if nfail == len(cands):
+                break
+        if req:
+            return None
+        for e in ops:
+            if e[0] == "opt" and e[1] in opt:      # an unmatched optional operand still skips the whitespace in front of it
+                l = P(e, l)[0]
+        return (l, toks)
     if k == "opt":
         r = P(g[1], l0)
         return r if r is not None else (l0, [])
